@@ -507,7 +507,8 @@ def check_key_val(key: str, val: Any, deprecations: dict = deprecations) -> tupl
             new_val = val_aliases[val]
 
     if key == "device":
-        if "cpu" in str(new_val):
+        dev_type, sep, dev_index = str(new_val).lower().partition(":")
+        if dev_type == "cpu" and (not sep or (dev_index.isascii() and dev_index.isdigit())):
             new_val = "cpu"
         else:
             new_val, gpu_id = validate_device(new_val)
